@@ -33,6 +33,13 @@ macro_rules! digest_set {
             verdicts.push(pk.hash_verify(msg, &s, b"c", &ph));
             verdicts.push(pk.hash_verify(b"x", &s, b"c", &ph));
         }
+        // many signatures: rare rejection-loop paths must agree across configurations too
+        for i in 0u32..300 {
+            let m = i.to_le_bytes();
+            let s = sk.try_sign_with_rng(&mut Fixed((i % 251) as u8), &m, b"").unwrap();
+            h.update(&s);
+            verdicts.push(pk.verify(&m, &s, b""));
+        }
         let pk3 = $m::PublicKey::try_from_bytes(pk.clone().into_bytes()).unwrap();
         let sk3 = $m::PrivateKey::try_from_bytes(sk.clone().into_bytes()).unwrap();
         h.update(&sk3.get_public_key().into_bytes());
